@@ -121,6 +121,51 @@ theorem soundness_partial (p g : Pos) (ms ms' : List Mv) (h0 : Playable startPos
   ⟨counts_invariant p ms' h0, counts_invariant_step p g ms h (counts_invariant p ms' h0),
    enough_remaining_necessary p g ms h, dist_lower_bound_captures_partial p g ms h hep⟩
 
+/-! ## defects found by the monitor (both repaired in /repo; the check keeps the replays in known_findings.json) -/
+
+/-- position from a placement string (no normalisation; counters irrelevant) -/
+def mkPos (placement : String) (wtm : Bool) (castle : UInt8) (ep : Option Sq) : Pos :=
+  match parsePlacement placement.toList (Vector.replicate 64 0) 7 0 with
+  | .ok (b, _) => { b := b, wtm := wtm, castle := castle, ep := ep, hmc := 0, fmc := 1 }
+  | .error _ => { b := Vector.replicate 64 0, wtm := wtm, castle := castle, ep := ep, hmc := 0, fmc := 1 }
+
+def mv (f t : Nat) : Mv := { f := ⟨f % 64, Nat.mod_lt _ (by decide)⟩, t := ⟨t % 64, Nat.mod_lt _ (by decide)⟩, promo := 0 }
+
+/-- white may castle: `rnbqkbnr/pppppppp/8/8/8/5NP1/PPPPPPBP/RNBQK2R w KQkq -` -/
+def castleA : Pos := mkPos "rnbqkbnr/pppppppp/8/8/8/5NP1/PPPPPPBP/RNBQK2R" true 15 none
+
+/-- WITNESS (castling; repaired by `fix: ProofGame::distLowerBound over-estimated the distance when a side can still
+    castle`).  From `castleA` the position after O-O is one ply away, but the unrepaired `computeNeededMoves` charged
+    white two king moves and one rook move (`neededMoves = {3, 0}`, observed through the hook), so `distLowerBound`
+    returned `pliesFromMoves 3 0 = 5 > 1`: the hypothesis `a ≤ nWhite` of `plies_from_moves` fails for `a = 3`.
+    With the repair's discount (`min 2 (dist(e1,goal) − dist(g1,goal)) = 2`) the value is `pliesFromMoves 1 0 = 1`.
+    That the discounted assignment cost is a lower bound in general is geometry and has NO theorem (monitored). -/
+theorem castling_bound_witness :
+    Playable castleA [mv 4 6] (fixupEP (apply castleA (mv 4 6))) ∧
+    ¬ ((3 : Int) ≤ nWhite castleA.wtm [mv 4 6].length) ∧
+    pliesFromMoves 3 0 castleA.wtm (fixupEP (apply castleA (mv 4 6))).wtm = 5 ∧
+    pliesFromMoves (3 - 2) 0 castleA.wtm (fixupEP (apply castleA (mv 4 6))).wtm = 1 := by
+  refine ⟨.cons _ _ _ _ (by decide +kernel) (.nil _), by decide, by decide +kernel, by decide +kernel⟩
+
+/-- `r1bqkb1r/1pp2p1p/2np4/p2NpPp1/1P4n1/5N2/PBPPP1PP/R2QKB1R w KQkq e6` (black has just played e7-e5) -/
+def epA : Pos := mkPos "r1bqkb1r/1pp2p1p/2np4/p2NpPp1/1P4n1/5N2/PBPPP1PP/R2QKB1R" true 15 (some ⟨44, by decide⟩)
+def epLine : List Mv := [mv 37 44, mv 42 25, mv 35 18, mv 61 54, mv 8 16, mv 60 62, mv 0 1]
+/-- `r1bq1rk1/1pp2pbp/3pP3/p5p1/1n4n1/P1N2N2/1BPPP1PP/1R1QKB1R b K -` -/
+def epB : Pos := mkPos "r1bq1rk1/1pp2pbp/3pP3/p5p1/1n4n1/P1N2N2/1BPPP1PP/1R1QKB1R" false 2 none
+
+/-- WITNESS (en passant; repaired by `fix: ProofGame::distLowerBound declared positions unreachable that need an en
+    passant capture`).  `epB` is reached from `epA` by the seven legal moves fxe6 e.p. Nb4 Nc3 Bg7 a3 O-O Rb1, while the
+    unrepaired `distLowerBound(epA → epB)` returned INT_MAX ("goal cannot be reached"): its capture analysis assumes
+    that a captured man stands on the capture square.  The repair tries the (at most two) en-passant captures
+    explicitly: `min(bound without e.p., 1 + bound after the capture)`; sound because a game from the position either
+    starts with an e.p. capture or never uses the e.p. square.  (No theorem for the repaired function as a whole.) -/
+theorem en_passant_unreachable_witness :
+    ∃ q, Playable epA epLine q ∧ epLine.length = 7 ∧ sameDraw q epB = true := by
+  have h : (match playLine epA epLine with | some q => sameDraw q epB | none => false) = true := by decide +kernel
+  split at h
+  · next q hq => exact ⟨q, (playLine_iff _ _ _).1 hq, rfl, h⟩
+  · cases h
+
 -- non-vacuity: 1. e4 e5 2. Nf3 is a legal game from the initial position, the checker accepts it, and the hypotheses
 -- `Playable startPos ms q` of the theorems above are satisfiable
 def e4e5Nf3 : List Mv := [{ f := 12, t := 28, promo := 0 }, { f := 52, t := 36, promo := 0 }, { f := 6, t := 21, promo := 0 }]
